@@ -139,6 +139,14 @@ func c17Build(chain []c17Plug) config.PluginsConfig {
 func c17Order(e *vh.Env, c c17Case, be *vh.Backend, o *vh.Out) {
 	cfg := baseConfig("round_robin", []*vh.Backend{be})
 	cfg.Plugins = c17Build(c.Chain)
+	if len(c.Chain) > 0 && (len(c.Chain)+int(c.Chain[0].Name[0]))%2 == 0 {
+		// the same configuration value has been built before (a dry run, a reload): building is repeatable
+		if _, err := plugins.BuildChain(cfg.Plugins, http.HandlerFunc(func(http.ResponseWriter, *http.Request) {})); err != nil {
+			o.Viol("C17|valid-chain-refused", fmt.Sprintf("chain %v with valid configurations does not build: %v", c.Chain, err), nil)
+			return
+		}
+		o.Obs("chains_built_twice", 1)
+	}
 	sys, err := startSys(cfg, []*vh.Backend{be}, false)
 	if err != nil {
 		o.Viol("C17|valid-chain-refused", fmt.Sprintf("chain %v with valid configurations does not build: %v", c.Chain, err), nil)
